@@ -35,6 +35,13 @@ Backed(tx, db, i) ==
 
 AllBacked(tx, db) == \A i \in 1..Len(tx.ins) : Backed(tx, db, i)
 
+\* loading the unspents from a database: possible iff the database holds the very source and
+\* the named output of every input; then input i is paired with that output
+Fetchable(tx, db) ==
+  \A i \in 1..Len(tx.ins) : LET in == tx.ins[i] e == db[in.src] IN
+    e.st = "tx" /\ e.id = in.src /\ in.idx < Len(e.outs)
+Fetched(tx, db) == [i \in 1..Len(tx.ins) |-> db[tx.ins[i].src].outs[tx.ins[i].idx + 1]]
+
 \* why input i is not backed (first failing clause; reporting only)
 Reason(tx, db, i) ==
   LET in == tx.ins[i]
